@@ -2,44 +2,84 @@ import CoapVerif.Spec.Ownership
 /-!
 C12 model, part 1: the typestate monitor that is run over the lifecycle traces recorded from the real code
 (hook h1 in message/pool: `acq`/`rel`/`poison`; `hold`/`unhold` are emitted by the harness around every place the
-application is handed a message).  An object never seen before is `held` by whoever created it (pool.NewMessage).
+application is handed a message).
+
+Per object the monitor knows
+* `free`        — released, sits in the pool;
+* `held out`    — owned by some code of the library or of the application, no application hold in progress.
+                  `out = true`: the pool handed it out (`acq`) and it was not released since; `out = false`: nothing
+                  seen yet, or only events of an object that did not come out of the pool (`pool.NewMessage`: the
+                  tracker logs `acq` only for objects taken from the sync.Pool);
+* `app out n`   — as `held out`, and the application holds it `n+1` times (counted holds).
+`Store.init` = nothing seen yet = every object `held false`.
 
 Part 2: the message-handling paths of the library routines as small programs over these events, parameterised by
 what the application's handler does (`Handler`), see `routineTrace`.
+
+Part 3: `midElement` (udp/client/conn.go), the pending confirmable's stored clone with its lock, as a small
+transition system over arbitrary schedules of release attempts and retransmissions.
 -/
 namespace CoapVerif.Model.Ownership
 open CoapVerif.Spec.Ownership (Ev)
 
-inductive TS | free | held | app deriving Repr, DecidableEq
+inductive TS
+  | free
+  | held (out : Bool)
+  | app (out : Bool) (n : Nat)
+  deriving Repr, DecidableEq
 
 inductive Viol
   | doubleRelease (o : Nat)
   | releasedWhileAppHolds (o : Nat)
   | handedOutReleased (o : Nat)
   | writtenAfterRelease (o : Nat)
+  | handedOutTwice (o : Nat)       -- the pool hands out an object that is still out (no release since its last hand-out)
+  | usedAfterRelease (o : Nat)     -- the library reads/writes an object that sits in the pool
   deriving Repr, DecidableEq
 
 abbrev Store := Nat → TS
 
-def Store.init : Store := fun _ => .held
+/-- Nothing seen yet. -/
+def Store.init : Store := fun _ => .held false
 def Store.set (m : Store) (o : Nat) (t : TS) : Store := fun x => if x = o then t else m x
 
-def stepM (m : Store) : Ev → Except Viol Store
-  | .acq o =>
-    match m o with
-    | .app => .error (.releasedWhileAppHolds o)     -- recycled while the application holds it
-    | _ => .ok (m.set o .held)
-  | .rel o =>
-    match m o with
+/-- The object an event is about. -/
+def objOf : Ev → Nat
+  | .acq o | .rel o | .hold o | .unhold o | .poisonBad o | .use o => o
+
+/-- One step of the typestate of object `o` under an event about `o`. -/
+def stepTS (o : Nat) (t : TS) : Ev → Except Viol TS
+  | .acq _ =>
+    match t with
+    | .app _ _ => .error (.releasedWhileAppHolds o)     -- recycled while the application holds it
+    | .held true => .error (.handedOutTwice o)          -- second owner without a release in between
+    | .held false => .ok (.held true)
+    | .free => .ok (.held true)
+  | .rel _ =>
+    match t with
     | .free => .error (.doubleRelease o)
-    | .app => .error (.releasedWhileAppHolds o)
-    | .held => .ok (m.set o .free)
-  | .hold o =>
-    match m o with
+    | .app _ _ => .error (.releasedWhileAppHolds o)
+    | .held _ => .ok .free
+  | .hold _ =>
+    match t with
     | .free => .error (.handedOutReleased o)
-    | _ => .ok (m.set o .app)
-  | .unhold o => .ok (if m o = .app then m.set o .held else m)
-  | .poisonBad o => .error (.writtenAfterRelease o)
+    | .held out => .ok (.app out 0)
+    | .app out n => .ok (.app out (n + 1))
+  | .unhold _ =>
+    match t with
+    | .app out 0 => .ok (.held out)
+    | .app out (n + 1) => .ok (.app out n)
+    | t => .ok t
+  | .poisonBad _ => .error (.writtenAfterRelease o)
+  | .use _ =>
+    match t with
+    | .free => .error (.usedAfterRelease o)
+    | t => .ok t
+
+def stepM (m : Store) (e : Ev) : Except Viol Store :=
+  match stepTS (objOf e) (m (objOf e)) e with
+  | .error v => .error v
+  | .ok t => .ok (m.set (objOf e) t)
 
 def monitor (m : Store) : List Ev → Option Viol
   | [] => none
@@ -98,9 +138,74 @@ def processReceived (tcp : Bool) (req resp : Nat) (ops : List HandlerOp) : List 
 def doHandover (r resp : Nat) : List Ev :=
   processReceived false r resp [.hijack] ++ [.hold r, .unhold r, .rel r]
 
-/-- `midElement`: the pending confirmable's private clone is released under its lock, at most once, whichever of
-    {ACK/RST arrives, expiry sweep, retransmission error} gets there (`n` attempts, only the first finds it). -/
-def midElementReleases (clone : Nat) (n : Nat) : List Ev :=
-  if n = 0 then [] else [.rel clone]
+/-! ### Part 3: `midElement` — the stored clone of a pending confirmable, under its lock
+
+udp/client/conn.go: `prepareWriteMessage` acquires a message, clones the request into it and stores it in a
+`midElement` (`private.msg`, guarded by `private.Mutex`).
+* `midElement.ReleaseMessage` (callers: `handleSpecialMessages` on ACK/RST, the response path, `checkMidHandlerContainer`
+  on expiry and on a retransmission error, the close function of a failed/finished write): lock; if `private.msg != nil`
+  release it and set it to nil; unlock.
+* `midElement.GetMessage` (caller: `checkMidHandlerContainer`, retransmission): lock; if `private.msg == nil` return;
+  acquire a message from the pool; clone `private.msg` into it (on error release the copy); unlock.  The caller writes
+  the copy to the session and releases it.
+
+Model: the state is (stored clone present?, pointers taken and not yet cloned, copies in flight); the lock is modelled by
+its granularity: a step of the schedule is one whole critical section (or one lock-free action of a caller).  A schedule
+is an arbitrary list of steps: any number of release attempts and retransmissions in any interleaving.  The objects
+the pool hands to `AcquireMessage` are named by the schedule (`k`); that the pool hands out only objects nobody owns
+is the pool's side of C12 (clause `okAfterAcq`, checked on the real traces), so a step proposing the stored clone or a
+copy still in flight as the acquired object is not a behaviour of the system and does nothing.
+
+`takePtr`/`cloneUnlocked` are NOT what the code does: they are the shape of the seeded change C12-A (`GetMessage`
+reads the pointer under the lock but clones after unlocking), kept in the same transition system so that the negative
+theorem (`midElement_unlocked_clone_rejected`) speaks about the same model. -/
+inductive MidStep
+  | release                          -- one `midElement.ReleaseMessage` (ACK, RST, response, expiry, write error)
+  | getMessage (k : Nat) (fail : Bool) -- one `midElement.GetMessage`; the pool hands out `k`; `fail`: Clone returns an error
+  | finish (k : Nat)                 -- the retransmission wrote copy `k` to the session and releases it
+  | takePtr                          -- (seeded shape) lock; p := private.msg; unlock
+  | cloneUnlocked (k : Nat)          -- (seeded shape) if p != nil: acquire `k`, clone p into it — outside the lock
+  deriving Repr, DecidableEq
+
+/-- The steps of the code as it is: every access to the stored clone is inside the critical section. -/
+def MidStep.underLock : MidStep → Bool
+  | .takePtr | .cloneUnlocked _ => false
+  | _ => true
+
+structure MidState where
+  stored : Bool := true      -- `private.msg != nil`
+  ptrs : Nat := 0            -- (seeded shape) non-nil pointers read under the lock and not yet cloned
+  copies : List Nat := []    -- copies made for a retransmission, not yet released
+  deriving Repr
+
+/-- Is `k` an object the pool may hand out now, as far as this element knows: not the stored clone while it is
+    stored (once released it is in the pool and may well come back as a copy), not a copy in flight. -/
+def MidState.poolMayGive (clone : Nat) (s : MidState) (k : Nat) : Bool :=
+  (k != clone || !s.stored) && !s.copies.contains k
+
+def midStep (clone : Nat) (s : MidState) : MidStep → MidState × List Ev
+  | .release =>
+    if s.stored then ({ s with stored := false }, [.rel clone]) else (s, [])
+  | .getMessage k fail =>
+    if s.stored && s.poolMayGive clone k then
+      if fail then (s, [.acq k, .use clone, .use k, .rel k])
+      else ({ s with copies := k :: s.copies }, [.acq k, .use clone, .use k])
+    else (s, [])
+  | .finish k =>
+    if s.copies.contains k then ({ s with copies := s.copies.erase k }, [.use k, .rel k]) else (s, [])
+  | .takePtr =>
+    if s.stored then ({ s with ptrs := s.ptrs + 1 }, []) else (s, [])
+  | .cloneUnlocked k =>
+    if s.ptrs != 0 && s.poolMayGive clone k then
+      ({ s with ptrs := s.ptrs - 1, copies := k :: s.copies }, [.acq k, .use clone, .use k])
+    else (s, [])
+
+def midRun (clone : Nat) (s : MidState) : List MidStep → List Ev
+  | [] => []
+  | st :: r => (midStep clone s st).2 ++ midRun clone (midStep clone s st).1 r
+
+/-- Life of the stored clone: acquired and filled by `prepareWriteMessage`, then whatever the schedule does. -/
+def midElementTrace (clone : Nat) (sched : List MidStep) : List Ev :=
+  .acq clone :: .use clone :: midRun clone {} sched
 
 end CoapVerif.Model.Ownership
